@@ -84,7 +84,7 @@ pub fn status_json_full(w: &World) -> String {
 }
 
 /// Status entries for parents, children or CAs that do not exist (any more).
-fn stale_entries(w: &World) -> Vec<(String, String)> {
+pub fn stale_entries(w: &World) -> Vec<(String, String)> {
     let cm = w.krill.ca_manager();
     let mut v = Vec::new();
     let handles = cm.ca_handles().unwrap_or_default();
